@@ -63,7 +63,7 @@ Section Spec.
   Notation dims := (GenComb.dims ldims tdims).
   Notation fform := (GenComb.fform ldims tdims tform).
   Notation rsem := (GenComb.rsem draw mask rperm rint ldims tfun trow).
-  Notation ok := (GenComb.ok draw mask rperm rint tvec tmulti ldims tfun trow tdims tform).
+  Notation ok := (GenComb.ok draw mask rperm rint ldims tfun trow tdims tform).
   Notation good := (GenComb.good draw mask rperm rint tvec tmulti ldims tfun trow tdims tform).
   Notation sized := (GenComb.sized draw rperm rint).
 
@@ -134,6 +134,8 @@ Section Spec.
         apply (Hf' h Hh) in Eh. discriminate.
   Qed.
 
+  Definition FL_or_FT (d : nat) : form := match d with 1 => FT | _ => FL end.
+
   Lemma single_or_len f (cs : list (list Z)) :
     single_or f cs = (match length cs with 1 => FT | _ => f end, cs).
   Proof. destruct cs as [|a [|b l]]; reflexivity. Qed.
@@ -200,9 +202,13 @@ Section Spec.
     destruct (tmulti_spec t d R Hd Hw) as [E _]. rewrite E. reflexivity.
   Qed.
 
-  Theorem transN_rows g k (R : list row) f :
-    sample g k = Some (f, transpose 1 R) -> sample (TransformN g) k = Some (FT, transpose 1 R).
-  Proof. intros Hs. cbn [GenComb.sample]. rewrite Hs. reflexivity. Qed.
+  (* no maps given: the identity, for any number of dimensions *)
+  Theorem transN_rows g k d (R : list row) f :
+    sample g k = Some (f, transpose d R) ->
+    sample (TransformN g) k = Some (match d with 1 => FT | _ => FU end, transpose d R).
+  Proof.
+    intros Hs. cbn [GenComb.sample]. rewrite Hs, single_or_len, transpose_length. reflexivity.
+  Qed.
 
   (* filter keeps exactly the rows passing the mask; their number is the new size *)
   Theorem filter_rows g m s u k d (R : list row) f :
@@ -226,43 +232,60 @@ Section Spec.
   Proof. intros H. unfold GenComb.size_at. rewrite H. reflexivity. Qed.
 
   (* resample: rows of ONE underlying draw, at the drawn indices *)
-  Lemma sample_resample_eq g r sz repl k :
-    sample (Resample g r sz repl) k =
-    (let n := size_at g k in
-     let idx := ridx g r sz repl k in
-     if (if repl then Nat.eqb (length idx) (rsize g sz) && forallb (fun i => Nat.ltb i n) idx
-         else Nat.eqb (length (rperm r k)) n)
-     then match sample g k with
-          | Some (f, cs) => match all_some (map (gather idx) cs) with
-                            | Some cs' => Some (match f with FT => FT | _ => FL end, cs')
-                            | None => None
-                            end
-          | None => None
-          end
-     else None).
+  Lemma ridx_in_range g r (sz : option nat) (repl : bool) k n :
+    (if repl then length (rint r k) = rsize g sz /\ Forall (fun i => i < n) (rint r k)
+     else length (rperm r k) = n /\ Forall (fun i => i < n) (rperm r k)) ->
+    Forall (fun i => i < n) (ridx g r sz repl k).
   Proof.
-    unfold GenComb.ridx, rsize.
-    destruct g; reflexivity.
+    unfold GenComb.ridx. destruct repl; intros [_ H]; [exact H|].
+    apply Forall_forall. intros i Hi. rewrite Forall_forall in H. apply H.
+    rewrite <- (firstn_skipn (rsize g sz) (rperm r k)). apply in_or_app. left. exact Hi.
   Qed.
 
+  (* FULL strength, any child: whatever randperm(n) / randint(n, (size,)) can answer for n = the
+     number of rows of the draw just taken selects rows of this very draw, never out of range *)
   Theorem resample_rows g r (sz : option nat) (repl : bool) k d (R : list row) f :
-    sample g k = Some (f, transpose d R) ->
-    (if repl then length (rint r k) = rsize g sz /\ Forall (fun i => i < size_at g k) (rint r k)
-     else length (rperm r k) = size_at g k) ->
-    Forall (fun i => i < length R) (ridx g r sz repl k) ->
+    sample g k = Some (f, transpose d R) -> 1 <= d ->
+    (if repl then length (rint r k) = rsize g sz /\ Forall (fun i => i < length R) (rint r k)
+     else length (rperm r k) = length R /\ Forall (fun i => i < length R) (rperm r k)) ->
     sample (Resample g r sz repl) k =
-    Some (match f with FT => FT | _ => FL end, transpose d (map (fun i => nth i R []) (ridx g r sz repl k))).
+    Some (match f with FT => FT | _ => FL end, transpose d (map (fun i => nth i R []) (ridx g r sz repl k)))
+    /\ Forall (fun i => i < length R) (ridx g r sz repl k).
   Proof.
-    intros Hs Hrng Hin. rewrite sample_resample_eq. cbv zeta.
+    intros Hs Hd Hrng.
+    assert (Hin : Forall (fun i => i < length R) (ridx g r sz repl k)) by (apply ridx_in_range; exact Hrng).
+    split; [|exact Hin].
+    cbn [GenComb.sample]. rewrite Hs.
+    destruct (transpose d R) as [|c0 cs0] eqn:E.
+    { apply (f_equal (@length _)) in E. rewrite transpose_length in E. cbn in E. lia. }
+    assert (Hc0 : length c0 = length R).
+    { pose proof (transpose_col_length d R) as Hl. rewrite E in Hl. inversion Hl; subst. assumption. }
+    rewrite Hc0. rewrite <- E. fold (rsize g sz). fold (ridx g r sz repl k).
     assert (Ec : (if repl then Nat.eqb (length (ridx g r sz repl k)) (rsize g sz)
-                               && forallb (fun i => Nat.ltb i (size_at g k)) (ridx g r sz repl k)
-                  else Nat.eqb (length (rperm r k)) (size_at g k)) = true).
+                               && forallb (fun i => Nat.ltb i (length R)) (ridx g r sz repl k)
+                  else Nat.eqb (length (rperm r k)) (length R)) = true).
     { destruct repl.
       - destruct Hrng as [Hl Hf]. unfold GenComb.ridx. apply andb_true_intro. split.
         + apply Nat.eqb_eq. exact Hl.
         + apply forallb_forall. intros i Hi. apply Nat.ltb_lt. rewrite Forall_forall in Hf. apply Hf. exact Hi.
-      - apply Nat.eqb_eq. exact Hrng. }
-    rewrite Ec, Hs, (gather_transpose d _ R Hin). reflexivity.
+      - apply Nat.eqb_eq. apply Hrng. }
+    rewrite Ec, (gather_transpose d _ R Hin). reflexivity.
+  Qed.
+
+  (* in particular directly above a filter: n is the number of rows the filter has just kept *)
+  Theorem resample_over_filter g m s u r (sz : option nat) (repl : bool) k d (R : list row) f :
+    sample g k = Some (f, transpose d R) -> 1 <= d -> length (mask m k) = length R ->
+    let F := Filter g m s u in
+    let R' := select (mask m k) R in
+    (if repl then length (rint r k) = rsize F sz /\ Forall (fun i => i < length R') (rint r k)
+     else length (rperm r k) = length R' /\ Forall (fun i => i < length R') (rperm r k)) ->
+    sample (Resample F r sz repl) k =
+    Some (FL_or_FT d, transpose d (map (fun i => nth i R' []) (ridx F r sz repl k))).
+  Proof.
+    intros Hs Hd Hm F R' Hrng.
+    destruct (filter_rows g m s u k d R f Hs Hd Hm) as [HF _]. fold F R' in HF.
+    destruct (resample_rows F r sz repl k d R' _ HF Hd Hrng) as [E _]. rewrite E.
+    unfold FL_or_FT. destruct d as [|[|d']]; reflexivity.
   Qed.
 
   (* without replacement the indices are pairwise distinct: no row of the draw is returned twice *)
@@ -302,7 +325,7 @@ Section Spec.
     induction g as [id s fm|gs IH|gs IH|gs IH|g ts IH|g t IH|g IH|g m s u IH|g r sz repl IH|g IH|cs] using gen_ind';
       intros k Hok;
       inversion Hok as [ ? ? ? ? Hl1 Hl2 Hl3 | ? ? Hne Hall Hdims Hforms | ? ? Hne Hall Hlens | ? ? Hne Hall Hone
-                       | ? ? ? Hg Hlen | ? ? ? Hg | ? ? Hg Hone | ? ? ? ? ? Hg Hm | ? ? ? ? ? Hg Hrng Hin | ? ? Hg
+                       | ? ? ? Hg Hlen | ? ? ? Hg | ? ? Hg | ? ? ? ? ? Hg Hm | ? ? ? ? ? Hg Hrng | ? ? Hg
                        | ? ? Hlen Hwf ]; subst; clear Hok.
     - (* Leaf *)
       unfold GenComb.good. cbn [GenComb.sample GenComb.fform GenComb.dims GenComb.rsem].
@@ -355,8 +378,9 @@ Section Spec.
       apply (transF_rows g t k (dims g) (rsem g k) (fform g)); auto.
     - (* TransformN *)
       destruct (IH k Hg) as [Hs [Hw [Hd Hf]]].
-      unfold GenComb.good. cbn [GenComb.fform GenComb.dims GenComb.rsem]. rewrite Hone in *. repeat split; auto.
-      apply (transN_rows g k (rsem g k) (fform g)). exact Hs.
+      unfold GenComb.good. cbn [GenComb.fform GenComb.dims GenComb.rsem]. repeat split; auto.
+      + apply (transN_rows g k (dims g) (rsem g k) (fform g)). exact Hs.
+      + destruct (dims g) as [|[|n]]; intros; try discriminate; reflexivity.
     - (* Filter *)
       destruct (IH k Hg) as [Hs [Hw [Hd Hf]]].
       unfold GenComb.good. cbn [GenComb.fform GenComb.dims GenComb.rsem]. repeat split; auto.
@@ -367,7 +391,8 @@ Section Spec.
       destruct (IH k Hg) as [Hs [Hw [Hd Hf]]].
       unfold GenComb.good. cbn [GenComb.fform GenComb.dims GenComb.rsem]. repeat split; auto.
       + apply (resample_rows g r sz repl k (dims g) (rsem g k) (fform g)); auto.
-      + apply Forall_forall. intros r0 Hr. apply in_map_iff in Hr as [i [<- Hi]].
+      + destruct (resample_rows g r sz repl k (dims g) (rsem g k) (fform g) Hs Hd Hrng) as [_ Hin].
+        apply Forall_forall. intros r0 Hr. apply in_map_iff in Hr as [i [<- Hi]].
         rewrite Forall_forall in Hw, Hin. apply Hw. apply nth_In. apply Hin. exact Hi.
       + destruct (fform g); intros; [apply Hf; reflexivity|discriminate|discriminate].
     - (* Static *)
@@ -448,7 +473,7 @@ Section Example.
     Concat [Filter (Leaf 0 3 FL) 0 None true;
             Resample (TransformL (Leaf 1 2 FU) [Some 1; None]) 0 None false].
 
-  Notation ex_ok := (ok ex_draw ex_mask ex_perm (fun _ _ => []) h_tvec ex_tmulti ex_ldims ex_tfun (fun _ r => r)
+  Notation ex_ok := (ok ex_draw ex_mask ex_perm (fun _ _ => []) ex_ldims ex_tfun (fun _ r => r)
                         (fun _ d => d) (fun _ _ => FU)).
 
   Lemma ex_tree_ok : forall k, ex_ok ex_tree k.
